@@ -317,21 +317,26 @@ def gen_and_replay(ctx, module, cfg, family, what, timeout=600, workers=1, extra
     ctx.transitions += gen
     ctx.mc_runs.append({"module": module, "cfg": cfg, "what": "vector generation: " + what, "generated": gen,
                         "distinct": dist, "vectors": n, "ok": True, "wall_s": round(time.time() - t, 1)})
-    res = json.loads(rv(["replay", family, "--in", vec] + (extra_replay or []), timeout=1200).strip().splitlines()[-1])
-    ctx.vectors += res["vectors"]
-    ctx.extra.setdefault("replay_steps", 0)
-    ctx.extra["replay_steps"] += res.get("steps", 0)
     with open(vec) as f:
         first = f.readline().strip()
     ctx.sample({"vector": json.loads(first), "from": cfg})
-    if res["mismatches"]:
-        rp = os.path.join(ctx.replays, "vec_%s.json" % cfg.replace(".cfg", ""))
-        json.dump(res["bad"], open(rp, "w"), indent=1)
-        ctx.violation("%d of %d TLC-generated %s behaviours (%s) are not reproduced by the code; first: %s" % (
-            res["mismatches"], res["vectors"], family, what, json.dumps(res["bad"][0])[:300]), rp)
-    if res.get("ndrift") or res.get("drift"):
-        ctx.drift.append("%s: implementation internals differ from the L2 model on %s vectors" % (
-            cfg, res.get("ndrift", len(res.get("drift", [])))))
+    # one generated vector file may be replayed several times (different targets of the same behaviours)
+    passes = extra_replay if extra_replay and isinstance(extra_replay[0], list) else [extra_replay or []]
+    res = None
+    for k, xr in enumerate(passes):
+        res = json.loads(rv(["replay", family, "--in", vec] + xr, timeout=2400).strip().splitlines()[-1])
+        ctx.vectors += res["vectors"]
+        ctx.extra.setdefault("replay_steps", 0)
+        ctx.extra["replay_steps"] += res.get("steps", 0)
+        if res["mismatches"]:
+            rp = os.path.join(ctx.replays, "vec_%s%s.json" % (cfg.replace(".cfg", ""), "_%d" % k if k else ""))
+            json.dump(res["bad"], open(rp, "w"), indent=1)
+            ctx.violation("%d of %d TLC-generated %s behaviours (%s%s) are not reproduced by the code; first: %s" % (
+                res["mismatches"], res["vectors"], family, what, (" / " + " ".join(map(str, xr))) if len(passes) > 1 else "",
+                json.dumps(res["bad"][0])[:300]), rp)
+        if res.get("ndrift") or res.get("drift"):
+            ctx.drift.append("%s: implementation internals differ from the L2 model on %s vectors" % (
+                cfg, res.get("ndrift", len(res.get("drift", [])))))
     return res
 
 
